@@ -21,6 +21,7 @@ import (
 	"github.com/pkg/errors"
 
 	"seata.apache.org/seata-go/pkg/datasource/sql/undo"
+	"seata.apache.org/seata-go/pkg/util/log"
 )
 
 // ATTx
@@ -51,19 +52,31 @@ func (tx *ATTx) Rollback() error {
 	return err
 }
 
+// rollbackLocal ends the local transaction of a phase one that cannot be
+// committed: database/sql regards the Tx as done after Commit, whatever it
+// answered, and puts the connection back into the pool.
+func (tx *ATTx) rollbackLocal() {
+	if err := tx.tx.Rollback(); err != nil {
+		log.Errorf("rollback of the local transaction after a failed phase one: %v", err)
+	}
+}
+
 // commitOnAT
 func (tx *ATTx) commitOnAT() error {
 	originTx := tx.tx
 	if err := originTx.register(originTx.tranCtx); err != nil {
+		tx.rollbackLocal()
 		return err
 	}
 
 	undoLogMgr, err := undo.GetUndoLogManager(originTx.tranCtx.DBType)
 	if err != nil {
+		tx.rollbackLocal()
 		return err
 	}
 
 	if err = undoLogMgr.FlushUndoLog(originTx.tranCtx, originTx.conn.targetConn); err != nil {
+		tx.rollbackLocal()
 		if rerr := originTx.report(false); rerr != nil {
 			return errors.WithStack(rerr)
 		}
@@ -71,6 +84,7 @@ func (tx *ATTx) commitOnAT() error {
 	}
 
 	if err := originTx.commitOnLocal(); err != nil {
+		tx.rollbackLocal()
 		if rerr := originTx.report(false); rerr != nil {
 			return errors.WithStack(rerr)
 		}
